@@ -260,6 +260,11 @@ func init() {
 			for _, x := range extra {
 				parts = append(parts, x.Text(16))
 			}
+			if short != "toaffine" {
+				// the model side appends the verdict of its group-law oracle on this input/output pair;
+				// the property's claim is that it always holds
+				parts = append(parts, "S=1")
+			}
 			return "ok " + strings.Join(parts, " ")
 		}
 	}
